@@ -54,6 +54,8 @@ typedef struct {
     volatile long  start_ms;
     char  label[200];
     uint16_t ch[VX_MAXPTS];
+    volatile int pre_n;             /* the work item being executed (for a retry after a watchdog kill) */
+    uint16_t pre[VX_MAXPTS];
 } vx_slot_t;
 
 typedef struct {
@@ -75,6 +77,7 @@ typedef struct {
     volatile uint64_t viskey[1ul << VX_VISBITS];
     volatile uint8_t  visbud[1ul << VX_VISBITS];
     volatile long nvisited;
+    volatile uint64_t retried[256]; volatile int nretried; volatile long transient_timeouts;
     unsigned char stack[VX_STACKBYTES];
 } vx_shared_t;
 
@@ -246,7 +249,8 @@ static int vx_pop(void) {
             vx_sh->top -= 4 + (size_t)nn * 2;
             if (nn) memcpy(vx_prefix, vx_sh->stack + vx_sh->top, (size_t)nn * 2);
             vx_prefix_n = (int)nn;
-            if (vx_me >= 0) { vx_sh->slot[vx_me].busy = 1; vx_sh->slot[vx_me].n = 0; vx_sh->slot[vx_me].start_ms = vx_now_ms(); vx_sh->slot[vx_me].label[0] = 0; }
+            if (vx_me >= 0) { vx_sh->slot[vx_me].pre_n = (int)nn; if (nn) memcpy((void*)vx_sh->slot[vx_me].pre, vx_prefix, (size_t)nn * 2);
+                              vx_sh->slot[vx_me].busy = 1; vx_sh->slot[vx_me].n = 0; vx_sh->slot[vx_me].start_ms = vx_now_ms(); vx_sh->slot[vx_me].label[0] = 0; }
             pthread_mutex_unlock(&vx_sh->lock);
             return 1;
         }
@@ -460,7 +464,8 @@ static int vx_main(int argc, char** argv, void (*init)(void), void (*body)(void)
             if (WIFEXITED(st) && WEXITSTATUS(st) == 3) { fprintf(stderr, "vx: engine error in worker %d\n", w); vx_sh->stop = 1; vx_sh->truncated = 2; }
             vx_crash_reason(w, why, sizeof why);
             if (!why[0]) { if (WIFSIGNALED(st)) snprintf(why, sizeof why, "signal%d", WTERMSIG(st)); else snprintf(why, sizeof why, "exit%d", WEXITSTATUS(st)); }
-            snprintf(sig, sizeof sig, "crash %s %s", vx_sh->slot[w].label, why);
+            { char lab[200]; snprintf(lab, sizeof lab, "%s", vx_sh->slot[w].label); char* cut = strstr(lab, " ;; "); if (cut) *cut = 0;   /* text after " ;; " is descriptive only */
+              snprintf(sig, sizeof sig, "crash %s %s", lab, why); }
             for (char* q = sig; *q; q++) if (*q == '\n' || *q == '|') *q = ' ';
             vx_record_violation(sig, (const uint16_t*)vx_sh->slot[w].ch, vx_sh->slot[w].n);
             __sync_fetch_and_add(&vx_sh->executions, 1);
@@ -478,8 +483,13 @@ static int vx_main(int argc, char** argv, void (*init)(void), void (*body)(void)
         long now = vx_now_ms();
         for (int w = 0; w < vx_nworkers; w++) {
             if (pids[w] > 0 && vx_sh->slot[w].busy && now - vx_sh->slot[w].start_ms > vx_exec_timeout_ms) {
-                char sig[256]; snprintf(sig, sizeof sig, "hang %s (> %ld ms)", vx_sh->slot[w].label, vx_exec_timeout_ms);
-                vx_record_violation(sig, (const uint16_t*)vx_sh->slot[w].ch, vx_sh->slot[w].n);
+                /* a timed-out work item is run once more before it is called a hang (the machine may just have been busy) */
+                uint64_t ph = vx_hash((const void*)vx_sh->slot[w].pre, (size_t)vx_sh->slot[w].pre_n * 2) | 1; int again = 0;
+                for (int q = 0; q < vx_sh->nretried; q++) if (vx_sh->retried[q] == ph) again = 1;
+                if (!again && vx_sh->nretried < 256) { vx_sh->retried[vx_sh->nretried++] = ph; vx_sh->transient_timeouts++; vx_push((const uint16_t*)vx_sh->slot[w].pre, vx_sh->slot[w].pre_n); }
+                else { char sig[256]; char lab[200]; snprintf(lab, sizeof lab, "%s", vx_sh->slot[w].label); char* cut = strstr(lab, " ;; "); if (cut) *cut = 0;
+                       snprintf(sig, sizeof sig, "hang %s (> %ld ms, twice)", lab, vx_exec_timeout_ms);
+                       vx_record_violation(sig, (const uint16_t*)vx_sh->slot[w].ch, vx_sh->slot[w].n); }
                 kill(pids[w], SIGKILL);
                 int st2; waitpid(pids[w], &st2, 0);
                 __sync_fetch_and_add(&vx_sh->executions, 1);
@@ -502,9 +512,9 @@ static int vx_main(int argc, char** argv, void (*init)(void), void (*body)(void)
         printf("VX viol %s | ", vx_sh->viol[i].sig); vx_print_choices(stdout, vx_sh->viol[i].ch, vx_sh->viol[i].n); printf(" | count=%d\n", vx_sh->viol[i].count);
     }
     printf("VX done exhaustive=%d executions=%ld outcomes=%ld outcomes_nontrivial=%ld nontrivial_execs=%ld maxpoints=%ld maxdev=%ld maxpre=%ld "
-           "boundD=%d boundP=%d visited=%ld pruned=%ld wall_ms=%ld violations=%d\n",
+           "boundD=%d boundP=%d visited=%ld pruned=%ld wall_ms=%ld transient_timeouts=%ld violations=%d\n",
            exhaustive, vx_sh->executions, vx_sh->noutcomes, vx_sh->noutcomes_nontrivial, vx_sh->nontrivial, vx_sh->maxpoints, vx_sh->maxdev, vx_sh->maxpre,
-           vx_boundD > 99999 ? -1 : vx_boundD, vx_boundP > 99999 ? -1 : vx_boundP, vx_sh->nvisited, vx_sh->pruned_points, wall, vx_sh->nviol);
+           vx_boundD > 99999 ? -1 : vx_boundD, vx_boundP > 99999 ? -1 : vx_boundP, vx_sh->nvisited, vx_sh->pruned_points, wall, vx_sh->transient_timeouts, vx_sh->nviol);
     return vx_sh->nviol ? 1 : 0;
 }
 #endif
